@@ -43,6 +43,8 @@ func checkC11(p *Prog, r *Report) {
 	ruleC11Only(p, a, r)
 	ruleC11NoCache(p, a, r)
 	ruleC11Rooted(p, a, r)
+	ruleC11Clean(p, a, r)
+	ruleC11LazyOnce(p, a, r)
 	ruleC11StaticName(p, a, r)
 	ruleC11ReadErrors(p, a, r)
 }
